@@ -27,6 +27,7 @@ class Kernel:
     options: Dict[str, str] = field(default_factory=dict)   # keyword options of the numba decorator
     in_dims: List[Tuple[str, ...]] = field(default_factory=list)
     out_dims: List[Tuple[str, ...]] = field(default_factory=list)
+    inlined: bool = False   # a helper the reference tree does not have, inlined into every caller by sa/canon.py
 
     @property
     def params(self) -> List[str]:
@@ -180,6 +181,7 @@ def load_kernels(repo: Repo) -> Dict[str, Kernel]:
             parallel = isinstance(kw.get("parallel"), ast.Constant) and kw["parallel"].value is True
             k = Kernel(fn.name, dotted, m.rel, fn, rec["kind"], rec["lazy"], nopython, parallel)
             k.options = {name: ast.unparse(v) for name, v in kw.items() if name}
+            k.inlined = bool(getattr(fn, "_verif_inlined", False))
             if rec["kind"] == "guvectorize":
                 if len(call.args) < 2:
                     raise AnalysisError(f"guvectorize needs signatures and layout: {m.rel}:{fn.name}")
